@@ -79,7 +79,7 @@ Section MemP.
   Qed.
 
   (* the u16 length of a text component is below 2^16 whenever the input consists of bytes *)
-  Lemma mem_text_bound bs : Forall (fun b => 0 <= b < 256) bs -> 0 <= mem_text bs <= 65535.
+  Lemma mem_text_bound bs : Forall (fun b => 0 <= b < 256) bs -> 0 <= mem_text bs <= Z.max (Z.of_nat (length bs)) 65535.
   Proof.
     intros Hb. unfold mem_text. destruct bs as [|tag r]; cbn [read_u8]; [lia|].
     destruct (tag =? 8); [|lia]. unfold read_be. destruct (take_n 2 r) as [[a r']|] eqn:E; [|lia].
